@@ -75,6 +75,10 @@ type c20Input struct {
 	CloseMs    int          `json:"close_ms,omitempty"`
 	// sim
 	Race bool `json:"race,omitempty"`
+	// transmit (concurrent stress of the transmit loader)
+	Rounds    int `json:"rounds,omitempty"`
+	K         int `json:"k,omitempty"`
+	PerReport int `json:"per_report,omitempty"`
 }
 
 // ---------------------------------------------------------------- plan
@@ -639,6 +643,100 @@ func c20GenRunnablePlan(r *Rng, small bool) config.SimulationPlan {
 	return p
 }
 
+// c20LogUpkeepPlan: the plan of the expected-count boundary: log-trigger upkeeps whose eligibility is a
+// periodic function (neither "always" nor "never"), and logs placed before / on / between / after their
+// eligible blocks and before / on / after their creation.
+func c20GenExpectPlan(r *Rng) config.SimulationPlan {
+	p := c20GenRunnablePlan(r, false)
+	genesis := p.Blocks.Genesis.Int64()
+	dur := p.Blocks.Duration
+	trig := "test_trigger_event"
+	first := len(p.GenerateUpkeeps)
+	for i, n := 0, r.Range(1, 3); i < n; i++ {
+		period := r.Range(5, 45)
+		var f string
+		switch r.Intn(3) {
+		case 0:
+			f = fmt.Sprintf("%dx", period)
+		case 1:
+			f = fmt.Sprintf("%dx - %d", period, r.Range(1, period))
+		default:
+			f = fmt.Sprintf("%dx + %d", period, r.Range(1, 9))
+		}
+		p.GenerateUpkeeps = append(p.GenerateUpkeeps, config.GenerateUpkeepEvent{
+			Event: config.Event{Type: config.GenerateUpkeepEventType, TriggerBlock: big.NewInt(genesis + int64(r.Range(0, dur/2)))},
+			Count: []int{1, 1, 2, 3}[r.Intn(4)], StartID: big.NewInt(int64(9000 + 1000*i)),
+			EligibilityFunc: f, OffsetFunc: fmt.Sprintf("%dx + %d", r.Range(0, 2), r.Range(0, 6)),
+			UpkeepType: config.LogTriggerUpkeepType, LogTriggeredBy: []string{trig, trig, trig, "other_event"}[r.Intn(4)],
+			Expected: []string{config.AllExpected, config.AllExpected, config.AllExpected, config.NoneExpected}[r.Intn(4)],
+		})
+	}
+	ups, err := chain.GenerateAllUpkeeps(p)
+	if err != nil {
+		return p
+	}
+	var cands []int64
+	nOld := 0
+	for _, e := range p.GenerateUpkeeps[:first] {
+		if e.Count > 0 {
+			nOld += e.Count
+		}
+	}
+	for _, u := range ups[nOld:] {
+		c := u.CreateInBlock.Int64()
+		cands = append(cands, c-1, c, c+1)
+		if e := u.EligibleAt; len(e) > 0 {
+			k := r.Intn(len(e))
+			cands = append(cands, e[0].Int64()-1, e[0].Int64(), e[0].Int64()+1, e[k].Int64(), e[k].Int64()+1,
+				e[len(e)-1].Int64()-1, e[len(e)-1].Int64(), e[len(e)-1].Int64()+1)
+			if len(e) > 1 {
+				cands = append(cands, (e[0].Int64()+e[1].Int64())/2, (e[len(e)-2].Int64()+e[len(e)-1].Int64())/2)
+			}
+		}
+	}
+	for i, n := 0, r.Range(1, 4); i < n && len(cands) > 0; i++ {
+		b := cands[r.Intn(len(cands))]
+		if b < 0 {
+			b = 0
+		}
+		p.LogEvents = append(p.LogEvents, config.LogTriggerEvent{
+			Event:        config.Event{Type: config.LogTriggerEventType, TriggerBlock: big.NewInt(b)},
+			TriggerValue: []string{trig, trig, trig, "other_event"}[r.Intn(4)],
+		})
+	}
+	return p
+}
+
+// c20ExpectEdge: hand-written plans around `logTriggersUpkeep` (genesis 100, 100 blocks; one log-trigger upkeep
+// created at 100, offset "0x + 1", eligibility "30x": eligible at 101, 131, 161, 191).
+func c20ExpectEdge() []config.SimulationPlan {
+	mk := func(elig string, create int64, expected string, logs ...int64) config.SimulationPlan {
+		p := config.SimulationPlan{
+			Node:   config.Node{Count: 4, MaxServiceWorkers: 10, MaxQueueSize: 100},
+			Blocks: config.Blocks{Genesis: big.NewInt(100), Cadence: config.Duration(time.Second), Duration: 100, EndPadding: 10},
+		}
+		p.ConfigEvents = append(p.ConfigEvents, c20ConfigEvent(101, 1))
+		p.GenerateUpkeeps = append(p.GenerateUpkeeps, config.GenerateUpkeepEvent{
+			Event: config.Event{Type: config.GenerateUpkeepEventType, TriggerBlock: big.NewInt(create)}, Count: 1, StartID: big.NewInt(300),
+			EligibilityFunc: elig, OffsetFunc: "0x + 1", UpkeepType: config.LogTriggerUpkeepType, LogTriggeredBy: "test_trigger_event", Expected: expected,
+		})
+		for _, b := range logs {
+			p.LogEvents = append(p.LogEvents, config.LogTriggerEvent{
+				Event: config.Event{Type: config.LogTriggerEventType, TriggerBlock: big.NewInt(b)}, TriggerValue: "test_trigger_event"})
+		}
+		return p
+	}
+	return []config.SimulationPlan{
+		mk("30x", 100, config.AllExpected, 150),                // between two eligible blocks: 1 expected
+		mk("30x", 100, config.AllExpected, 101),                // on the first eligible block
+		mk("30x", 100, config.AllExpected, 100, 102, 191, 192), // before the first, after the first, on the last, after the last: 3
+		mk("30x", 160, config.AllExpected, 150, 160, 170),      // created after the first log
+		mk("30x", 100, config.NoneExpected, 150),
+		mk("always", 100, config.AllExpected, 99, 150),
+		mk("never", 100, config.AllExpected, 150),
+	}
+}
+
 func c20GenCounts(r *Rng) []int {
 	n := 0
 	switch r.Intn(6) {
@@ -769,6 +867,11 @@ func c20Edge() []c20Input {
 	sr := mk(0, 1537, c20Tracker{Total: 5})
 	sr.BlockFirst = true
 	out = append(out, sr)
+	for i, p := range c20ExpectEdge() {
+		if in, err := c20PlanInput("expect", fmt.Sprintf("log-upkeep-edge-%d", i), p, true); err == nil {
+			out = append(out, in)
+		}
+	}
 	for _, counts := range [][]int{{}, {3}, {3, 1}, {1, 2, 3}, {4, 4, 4, 4}, {5, 1, 4, 2, 3}, {1, 2, 3, 4, 5, 6}, {9, 1, 1, 1, 1, 1, 40}, {0, 0, 0, 0, 0, 0, 0, 0}} {
 		out = append(out, c20Input{Kind: "stats", Counts: counts})
 	}
@@ -789,6 +892,8 @@ func c20Run(t *testing.T, in c20Input, simExe string) any {
 		return impl
 	case "track":
 		return c20RunTrack(t, in)
+	case "transmit":
+		return c20RunTransmit(in, simExe, in.Race)
 	case "sim":
 		plan, err := c20CanonToPlan(*in.Plan)
 		if err != nil {
@@ -908,6 +1013,20 @@ func TestC20(t *testing.T) {
 		}
 		emit("gen", in, self)
 	}
+	for i, n := 0, tierN(300, 5000); i < n; i++ {
+		p := c20GenExpectPlan(r)
+		in, err := c20PlanInput("expect", "", p, true)
+		if err != nil {
+			t.Fatalf("generated plan does not generate: %v", err)
+		}
+		for _, u := range in.Upkeeps {
+			if u.Type == 1 && !u.Always && len(u.EligibleAt) > 0 {
+				em.Hit("expect.periodic-log-upkeep")
+				break
+			}
+		}
+		emit("gen", in, self)
+	}
 	// (2) summary statistics on check-count vectors of length 0–50
 	for i, n := 0, tierN(300, 6000); i < n; i++ {
 		in := c20Input{Kind: "stats", Counts: c20GenCounts(r)}
@@ -921,6 +1040,12 @@ func TestC20(t *testing.T) {
 			em.Hit("track.late-register")
 		}
 		emit("gen", in, self)
+	}
+	// the transmit loader under concurrent Transmit calls (un-timed, child process)
+	stress := []c20Input{
+		{Kind: "transmit", Rounds: tierN(2500, 12000), K: 8, PerReport: 1},
+		{Kind: "transmit", Rounds: tierN(1500, 8000), K: 2, PerReport: 3},
+		{Kind: "transmit", Rounds: tierN(1500, 8000), K: 16, PerReport: 2},
 	}
 	// (3) the real simulator, one child process per simulation
 	type simCase struct {
@@ -944,8 +1069,9 @@ func TestC20(t *testing.T) {
 		}
 		sims = append(sims, simCase{in, self})
 	}
+	raceExe := ""
 	if thorough() {
-		if raceExe := c20RaceExe(t); raceExe != "" {
+		if raceExe = c20RaceExe(t); raceExe != "" {
 			defer os.Remove(raceExe)
 			for _, k := range []int{0, 2} { // only_log_trigger.json and simplan_fast_check.json under the race detector
 				in := sims[k].in
@@ -956,6 +1082,12 @@ func TestC20(t *testing.T) {
 		} else {
 			em.Hit("sim.race-build-unavailable")
 		}
+	}
+	for _, in := range stress {
+		sims = append(sims, simCase{in, self})
+	}
+	if raceExe != "" {
+		sims = append(sims, simCase{c20Input{Kind: "transmit", Rounds: 1500, K: 8, PerReport: 1, Race: true}, raceExe})
 	}
 	results := make([]any, len(sims))
 	var wg sync.WaitGroup
@@ -971,7 +1103,7 @@ func TestC20(t *testing.T) {
 	}
 	wg.Wait()
 	for i := range sims {
-		em.Hit("kind=sim")
-		em.Emit("sim:"+sims[i].in.Name, sims[i].in, results[i])
+		em.Hit("kind=" + sims[i].in.Kind)
+		em.Emit(sims[i].in.Kind+":"+sims[i].in.Name, sims[i].in, results[i])
 	}
 }
